@@ -164,4 +164,5 @@ pub mod mkdrv;
 pub mod g9rt;
 pub mod g5oracle;
 pub mod g9mk;
+pub mod g9prog;
 pub mod g7mm;
